@@ -11,7 +11,7 @@ from ..core import AnalysisError, Ctx, fold, norm
 from ..grammar import Star, seq_str
 
 META = {
-    "explanation": "Exhaustive agreement of the four vocabulary tables, decided from source text: block types of the compiled grammar vs schema files vs tokens.py tables (V1,V9), singleton/plural storage of every parent->child schema edge vs SINGLETON_COMPOSITE_NAMES / OBJECT_LIST_KEYS / the evaluated plural() (V3), REPEATED_KEYS vs repeated array-of-string keywords (V4), SYMBOL_ATTRIBUTES vs symbol.json (V5), every (type, keyword, value alternative, position first/middle/last) fed as terminal names to the LALR table with the contextual lexer's word classification and the PAI-evaluated interactive retagging of Parser.parse (V6), no block-level LALR conflict (G1), every schema default valid for its own node (V7), printer dispatch literals / COMPLEX_TYPES vs grammar block rules (V8).",
+    "explanation": "Exhaustive agreement of the four vocabulary tables, decided from source text: block types of the compiled grammar vs schema files vs tokens.py tables (V1,V9), singleton/plural storage of every parent->child schema edge vs SINGLETON_COMPOSITE_NAMES / OBJECT_LIST_KEYS / the evaluated plural() (V3), REPEATED_KEYS vs repeated array-of-string keywords (V4), SYMBOL_ATTRIBUTES vs symbol.json (V5), every (type, keyword, value alternative, position first/middle/last) fed as terminal names to the LALR table with the contextual lexer's word classification and the PAI-evaluated interactive retagging of Parser.parse (V6), no block-level LALR conflict (G1), every schema default valid for its own node (V7), the printer writes every keyword-introduced block in its rule's shape (evaluated), COMPLEX_TYPES vs grammar block rules (V8), every listed alternative validates for its keyword (V9).",
     "level_text": "Exhaustive enumeration of a finite product (20 types x 326 keyword slots x value alternatives x 3 positions; all LALR conflicts; all defaults): each obligation is decided on the compiled grammar / schema data / constant-folded tables of the current tree. This is the right level because C19 quantifies over a finite vocabulary - enumeration is a complete decision, not a sample.",
     "level_note": "Trusted: lark 1.3.1 LALR construction and contextual-lexer rules as re-implemented for whole words (terminal order, 'unless' re-typing), Draft-4 semantics of jsonschema for V7. Values are represented by terminal kinds, one canonical representative per schema alternative; lexer-level behaviour inside a value token is not examined.",
     "technique": "static table agreement: compiled-grammar LALR queries on terminal-name sequences + JSON-schema slot enumeration + AST constant folding + abstract interpretation of plural()/retagging",
@@ -37,23 +37,54 @@ def grammar_block_types(G) -> dict[str, str]:
 
 
 def special_block_rules(G) -> dict[str, dict]:
-    """Rules of the form  !name: "KW"i ... : the keyword-introduced special writers."""
-    out = {}
-    items = set()
-    for parent in ("_composite_item", "composite"):
-        for r in G.by_origin.get(parent, []):
-            for n, is_term, _ in r.expansion:
-                if not is_term:
-                    items.add(n)
-    for origin, rules in G.by_origin.items():
-        if origin not in items:
-            continue
+    """Rules of the form  !name: "KW"i ... : the keyword-introduced special writers.  Found by role:
+    the rules reachable from ``composite`` that are not part of an attribute's value (not reachable
+    from ``attr``); helper rules whose name starts with an underscore are inlined by lark and looked
+    through when deciding whether the construct always ends with END."""
+    for anchor in ("composite", "attr"):
+        if anchor not in G.by_origin:
+            raise AnalysisError(f"anchor vanished: rule {anchor}")
+
+    def reach(start: str) -> set:
+        seen: set = set()
+        todo = [start]
+        while todo:
+            o = todo.pop()
+            if o in seen:
+                continue
+            seen.add(o)
+            for r in G.by_origin.get(o, []):
+                todo += [n for n, is_term, _ in r.expansion if not is_term]
+        return seen
+
+    # block-level constructs: reachable from a composite, but not part of an attribute's value
+    items = reach("composite") - reach("attr")
+
+    def always_ends(origin: str, depth: int = 0) -> bool:
+        rules = G.by_origin.get(origin, [])
+        if not rules or depth > 6:
+            return False
         for r in rules:
+            if not r.expansion:
+                return False
+            n, is_term, _ = r.expansion[-1]
+            if is_term:
+                if n != "_END":
+                    return False
+            elif n.startswith("_"):
+                if not always_ends(n, depth + 1):
+                    return False
+            else:
+                return False
+        return True
+
+    out = {}
+    for origin in sorted(items):
+        for r in G.by_origin.get(origin, []):
             if r.keep_all and r.expansion and r.expansion[0][1]:
                 t = G.terms.get(r.expansion[0][0])
                 if t is not None and t.kind == "str" and t.value.lower() == origin:
-                    ends = r.expansion[-1][0] == "_END"
-                    out.setdefault(origin, {"kw": t.name, "end": ends})
+                    out.setdefault(origin, {"kw": t.name, "end": always_ends(origin)})
     return out
 
 
@@ -424,26 +455,13 @@ def run(ctx: Ctx) -> None:
     ctx.units["alternatives_validated"] = n9
 
     # ---- V8 printer dispatch / COMPLEX_TYPES ----------------------------------------------------
-    ctx.rule("V8", "the keyword literals PrettyPrinter._format dispatches on, compute_max_key_length's ignore list, COMPLEX_TYPES and the grammar's keyword-introduced block rules agree", 3)
+    ctx.rule("V8", "every keyword-introduced block rule of the grammar is written by the printer in that rule's shape (evaluated), is not counted for the alignment column, and COMPLEX_TYPES equals the END-terminated constructs", 10)
     fmt = repo.func("pprint.PrettyPrinter._format")
-    lits = set()
-    loop_var = None
-    for n in ast.walk(fmt):
-        if isinstance(n, ast.For) and isinstance(n.iter, ast.Call) and isinstance(n.iter.func, ast.Attribute) and n.iter.func.attr == "items" and isinstance(n.target, ast.Tuple):
-            loop_var = n.target.elts[0].id  # type: ignore[attr-defined]
-    if loop_var is None:
-        raise AnalysisError("anchor vanished: items() loop of PrettyPrinter._format")
-    for n in ast.walk(fmt):
-        if isinstance(n, ast.Compare) and isinstance(n.left, ast.Name) and n.left.id == loop_var and len(n.ops) == 1 and isinstance(n.ops[0], (ast.Eq, ast.In)):
-            try:
-                v = fold(n.comparators[0])
-            except Exception:
-                continue
-            for x in v if isinstance(v, (tuple, list, frozenset, set)) else [v]:
-                if isinstance(x, str):
-                    lits.add(x)
     want = set(special)
-    ctx.check(lits == want, "V8", "pprint.PrettyPrinter._format dispatch literals", repo.loc("pprint", fmt), f"literals = grammar block rules = {sorted(want)}", f"_format dispatches on {sorted(lits)} but the grammar's keyword-introduced rules are {sorted(want)}")
+    from .. import printer as _pr
+
+    for kw, okk, desc in _pr.dispatch_shapes(e, special, OBJECT_LIST_KEYS, REPEATED):
+        ctx.check(okk, "V8", f"printer writes {kw.upper()} in the shape the grammar's rule reads", repo.loc("pprint", fmt), desc, f"{kw.upper()} is written as {desc!r}, which is not the shape of the grammar's rule for it")
     # which keys does compute_max_key_length count?  (evaluated, not read off a variable name)
     from .. import layout as _layout
     from ..absval import HDict as _HD
